@@ -280,6 +280,7 @@ package jmespath
 //@ func (*Parser).parseExpression
 //@   props C05
 //@   requires PI(p) && 0 <= bindingPower
+//@   ensures {C03,C02,C15} [stops-at-looser-or-equal-operator] err == nil ==> bp(p.tokens[p.index].tokenType) <= bindingPower
 //@   assigns Parser.index
 //@   decreases len(p.tokens) - p.index
 //@   decreases 0
@@ -386,6 +387,7 @@ package jmespath
 //@ func (*Parser).parseProjectionRHS
 //@   props C05
 //@   requires PI(p) && 0 <= bindingPower
+//@   ensures {C02,C03} [projection-ends-at-looser-operator] bp(old(p.tokens[p.index].tokenType)) < 10 ==> err == nil && result.nodeType == ASTIdentity && p.index == old(p.index)
 //@   assigns Parser.index
 //@   decreases len(p.tokens) - p.index
 //@   decreases 2
@@ -810,6 +812,8 @@ package jmespath
 //@   requires wfNode(jp.ast) && jp.intr != nil && jp.intr.fCall != nil && jp.intr.fCall.functionTable == theFunctionTable() && specJSONVal(data)
 //@   assigns \nothing
 //@   ensures {C16} [json-result] err == nil ==> specJSONVal(result)
+//@   ensures {C01,C02,C07,C08,C11,C15} [fails-exactly-when-the-specification-fails] pureTree(jp.ast) ==> ((err == nil) <==> snd(specEval(jp.ast, data)))
+//@   ensures {C01,C02,C07,C08,C15} [value-the-specification-assigns] pureTree(jp.ast) && err == nil ==> same(result, fst(specEval(jp.ast, data)))
 
 //@ func Search
 //@   props C05
@@ -827,3 +831,26 @@ package jmespath
 //@   requires wfNode(n)
 //@   ensures wfArg(n)
 //@   trigger wfNode(n)
+
+//@ lemma pipe-is-sequential-composition
+//@   props C15
+//@   var n Node
+//@   var v Val
+//@   requires n.nodeType == ASTPipe && nkids(n) == 2
+//@   ensures snd(specEval(n, v)) <==> (snd(specEval(kid(n, 0), v)) && snd(specEval(kid(n, 1), fst(specEval(kid(n, 0), v)))))
+//@   ensures snd(specEval(n, v)) ==> same(fst(specEval(n, v)), fst(specEval(kid(n, 1), fst(specEval(kid(n, 0), v)))))
+
+//@ lemma literal-denotes-its-value
+//@   props C15
+//@   var n Node
+//@   var v Val
+//@   requires n.nodeType == ASTLiteral
+//@   ensures snd(specEval(n, v)) && same(fst(specEval(n, v)), n.value)
+
+//@ lemma pipe-is-associative
+//@   props C15
+//@   var a Node
+//@   var b Node
+//@   var c Node
+//@   var v Val
+//@   ensures same(specPipe2(specPipe2Node(a, b), c, v), specPipe2(a, specPipe2Node(b, c), v))
